@@ -585,3 +585,18 @@ def cal_probe_temp(detector, **kwargs) -> None:
     detector.pixel.array = data.copy()
     detector.signal.array = data.copy()
     detector.image.array = np.asarray(np.clip(np.floor(data), 0, 2**31), dtype="uint32")
+
+
+def c20_particles(detector, clusters=()) -> None:
+    """C20: put charge clusters into the detector before a loading model runs: `clusters` = [[row, col, number], …],
+    each placed at the centre of its pixel."""
+    if not clusters:
+        return
+    geo = detector.geometry
+    rows = np.array([float(c[0]) for c in clusters])
+    cols = np.array([float(c[1]) for c in clusters])
+    z = np.zeros(len(clusters))
+    detector.charge.add_charge(
+        particle_type="e", particles_per_cluster=np.array([float(c[2]) for c in clusters]), init_energy=z,
+        init_ver_position=(rows + 0.5) * geo.pixel_vert_size, init_hor_position=(cols + 0.5) * geo.pixel_horz_size,
+        init_z_position=z, init_ver_velocity=z, init_hor_velocity=z, init_z_velocity=z)
